@@ -185,6 +185,9 @@ func (p *jsonPathParser) setConnectedText(targetNode syntaxNode, postfix ...stri
 	targetNode.setConnectedText(targetNode.getText() + appendText)
 
 	if multiIdentifier, ok := targetNode.(*syntaxChildMultiIdentifier); ok {
+		for _, identifier := range multiIdentifier.identifiers {
+			identifier.setConnectedText(targetNode.getConnectedText())
+		}
 		if multiIdentifier.isAllWildcard {
 			multiIdentifier.unionQualifier.setConnectedText(targetNode.getConnectedText())
 		}
@@ -232,6 +235,9 @@ func (p *jsonPathParser) setLastNodeText(text string) {
 	node.setText(text)
 
 	if multiIdentifier, ok := node.(*syntaxChildMultiIdentifier); ok {
+		for _, identifier := range multiIdentifier.identifiers {
+			identifier.setText(text)
+		}
 		if multiIdentifier.isAllWildcard {
 			multiIdentifier.unionQualifier.setText(text)
 		}
